@@ -1,5 +1,6 @@
 // C14 — DNS: IN/A queries get a faithful, parseable answer with the queried address.
 
+use crate::vf::shadow::{shadow_opt, with_shadow, Shadow};
 use proptest::collection::vec;
 use proptest::prelude::*;
 use serde::{Deserialize, Serialize};
@@ -37,9 +38,19 @@ pub struct Case {
     /// IP header fields the responder is not documented to look at
     #[serde(default)]
     pub tweak: Option<IpTweak>,
+    /// sibling traffic sent before every frame of the case (vf/shadow.rs)
+    #[serde(default)]
+    pub shadow: Option<Shadow>,
 }
 
 pub fn case_strategy() -> impl Strategy<Value = Case> {
+    (case_strategy0(), shadow_opt()).prop_map(|(mut c, sh)| {
+        c.shadow = sh;
+        c
+    })
+}
+
+fn case_strategy0() -> impl Strategy<Value = Case> {
     let fault = prop_oneof![
         6 => Just(Fault::None),
         2 => (any::<u16>(), prop_oneof![3 => prop::sample::select(vec![2u16, 5, 12, 15, 16, 28, 33, 255, 0]), 2 => Just(1u16), 1 => prop::sample::select(vec![0x0101u16, 0x8001, 0x0100, 0x4001]), 1 => any::<u16>()], prop_oneof![3 => Just(1u16), 1 => prop::sample::select(vec![3u16, 4, 255, 0]), 2 => prop::sample::select(vec![0x8001u16, 0x0101, 0x0100, 0x8003, 0x4001, 0xff01, 0x0081]), 1 => any::<u16>()])
@@ -47,10 +58,14 @@ pub fn case_strategy() -> impl Strategy<Value = Case> {
         2 => any::<u16>().prop_map(Fault::Truncated),
         1 => (prop_oneof![2 => Just(0u16), 1 => 1u16..3], prop_oneof![3 => Just(1u16), 1 => 1u16..4], prop_oneof![2 => Just(vec![]), 1 => Just(vec![0u8]), 1 => Just(vec![0, 0, 41, 0x10, 0, 0, 0]), 1 => proptest::collection::vec(any::<u8>(), 1..10)]).prop_map(|(ns, ar, partial)| Fault::MissingRecords { ns, ar, partial: Hex(partial) }),
     ];
-    (scenario_levels(Fam::V4), port(), port(), dns_query(8), fault, prop::option::weighted(0.25, crate::vf::props::c03::ip_tweak())).prop_map(|(scn, sport, dport, q, fault, tweak)| Case { scn, sport, dport, q, fault, tweak })
+    (scenario_levels(Fam::V4), port(), port(), dns_query(8), fault, prop::option::weighted(0.25, crate::vf::props::c03::ip_tweak())).prop_map(|(scn, sport, dport, q, fault, tweak)| Case { shadow: None, scn, sport, dport, q, fault, tweak })
 }
 
 pub fn check(c: &Case, st: &mut Stats) -> Check {
+    with_shadow(&c.shadow, st, |st| check0(c, st))
+}
+
+fn check0(c: &Case, st: &mut Stats) -> Check {
     Sut::reset();
     st.eval();
     let _ambient = AmbientGuard::set(&c.tweak);
